@@ -99,6 +99,17 @@ Theorem C05_wf_examples :
 Proof. exact (conj c05_f1_wf c05_hf_wf). Qed.
 Print Assumptions C05_wf_examples.
 
+(* several hotfix queues at once are inside the hypotheses (nothing bounds their number) *)
+Theorem C05_two_hotfix_queues_example :
+  WF c05_hf2_paths [9] c05_hf2_queues
+  /\ evaluate c05_hf2_status c05_hf2_paths false c05_hf2_queues
+     = Ok (spec_prs c05_hf2_status false [9] c05_hf2_queues, spec_moves c05_hf2_status false [9] c05_hf2_queues)
+  /\ spec_prs c05_hf2_status false [9] c05_hf2_queues = [3; 9].
+Proof.
+  exact (conj c05_hf2_wf (conj (c05_full c05_hf2_status c05_hf2_paths [9] c05_hf2_queues false c05_hf2_wf) eq_refl)).
+Qed.
+Print Assumptions C05_two_hotfix_queues_example.
+
 Theorem C05_wf_b_sound : forall paths order qs, wf_b paths order qs = true -> WF paths order qs.
 Proof. exact c05_wf_b_sound. Qed.
 Print Assumptions C05_wf_b_sound.
